@@ -3,6 +3,7 @@ import Driver.Concurrency
 import Driver.Field
 import Driver.Persist
 import Driver.Query
+import Driver.Reads
 import Driver.Widcode
 open Driver
 
@@ -11,6 +12,7 @@ def sessions : List (String × Sess) := [
   ("field", FieldS.sess),
   ("persist", PersistS.sess),
   ("query", QueryS.sess),
+  ("reads", ReadsS.sess),
   ("widcode", WidcodeS.sess)
 ]
 
